@@ -55,33 +55,35 @@ Record st : Type := mkst {
   panicked : bool;               (* close of nil / closed channel *)
   cb       : option nat;         (* onNegotiationNeeded: enqueues an op of that depth *)
   clients  : list cpc;
-  workers  : list wpc
+  workers  : list wpc;
+  live     : nat                 (* ghost: start() goroutines that exist: +1 at every
+                                    `go o.start()`, -1 when a goroutine returns *)
 }.
 
 Definition set_clients (s : st) (c : list cpc) : st :=
   mkst (queue s) (busy s) (chclosed s) (nextch s) (closed s) (flag s) (nextop s)
-       (accepted s) (ran s) (panicked s) (cb s) c (workers s).
+       (accepted s) (ran s) (panicked s) (cb s) c (workers s) (live s).
 Definition set_workers (s : st) (w : list wpc) : st :=
   mkst (queue s) (busy s) (chclosed s) (nextch s) (closed s) (flag s) (nextop s)
-       (accepted s) (ran s) (panicked s) (cb s) (clients s) w.
+       (accepted s) (ran s) (panicked s) (cb s) (clients s) w (live s).
 Definition set_queue (s : st) (q : list (nat * nat)) : st :=
   mkst q (busy s) (chclosed s) (nextch s) (closed s) (flag s) (nextop s)
-       (accepted s) (ran s) (panicked s) (cb s) (clients s) (workers s).
+       (accepted s) (ran s) (panicked s) (cb s) (clients s) (workers s) (live s).
 Definition set_flag (s : st) (f : bool) : st :=
   mkst (queue s) (busy s) (chclosed s) (nextch s) (closed s) f (nextop s)
-       (accepted s) (ran s) (panicked s) (cb s) (clients s) (workers s).
+       (accepted s) (ran s) (panicked s) (cb s) (clients s) (workers s) (live s).
 Definition set_closed (s : st) (b : bool) : st :=
   mkst (queue s) (busy s) (chclosed s) (nextch s) b (flag s) (nextop s)
-       (accepted s) (ran s) (panicked s) (cb s) (clients s) (workers s).
+       (accepted s) (ran s) (panicked s) (cb s) (clients s) (workers s) (live s).
 Definition set_ran (s : st) (r : list nat) : st :=
   mkst (queue s) (busy s) (chclosed s) (nextch s) (closed s) (flag s) (nextop s)
-       (accepted s) r (panicked s) (cb s) (clients s) (workers s).
+       (accepted s) r (panicked s) (cb s) (clients s) (workers s) (live s).
 Definition set_busy (s : st) (b : option nat) : st :=
   mkst (queue s) b (chclosed s) (nextch s) (closed s) (flag s) (nextop s)
-       (accepted s) (ran s) (panicked s) (cb s) (clients s) (workers s).
+       (accepted s) (ran s) (panicked s) (cb s) (clients s) (workers s) (live s).
 Definition set_panicked (s : st) : st :=
   mkst (queue s) (busy s) (chclosed s) (nextch s) (closed s) (flag s) (nextop s)
-       (accepted s) (ran s) true (cb s) (clients s) (workers s).
+       (accepted s) (ran s) true (cb s) (clients s) (workers s) (live s).
 
 Fixpoint upd {A} (l : list A) (i : nat) (x : A) : list A :=
   match l, i with
@@ -95,10 +97,17 @@ Definition memb (x : nat) (l : list nat) : bool := existsb (Nat.eqb x) l.
 (* o.busyCh = make(chan struct{}); go o.start() *)
 Definition spawn (s : st) : st :=
   mkst (queue s) (Some (nextch s)) (chclosed s) (S (nextch s)) (closed s) (flag s) (nextop s)
-       (accepted s) (ran s) (panicked s) (cb s) (clients s) (workers s ++ [WStart]).
+       (accepted s) (ran s) (panicked s) (cb s) (clients s) (workers s ++ [WStart]) (S (live s)).
 
 (* go o.start() keeping the current busyCh (repaired deferred block) *)
-Definition respawn (s : st) : st := set_workers s (workers s ++ [WStart]).
+Definition respawn (s : st) : st :=
+  mkst (queue s) (busy s) (chclosed s) (nextch s) (closed s) (flag s) (nextop s)
+       (accepted s) (ran s) (panicked s) (cb s) (clients s) (workers s ++ [WStart]) (S (live s)).
+
+(* a start() goroutine returns *)
+Definition retire (s : st) : st :=
+  mkst (queue s) (busy s) (chclosed s) (nextch s) (closed s) (flag s) (nextop s)
+       (accepted s) (ran s) (panicked s) (cb s) (clients s) (workers s) (pred (live s)).
 
 (* tryEnqueue(op) with o.mu held; the op is a fresh function value of depth d *)
 Definition try_enqueue (s : st) (d : nat) : st * option nat :=
@@ -106,7 +115,7 @@ Definition try_enqueue (s : st) (d : nat) : st * option nat :=
   else
     let id := nextop s in
     let s1 := mkst (queue s ++ [(id, d)]) (busy s) (chclosed s) (nextch s) (closed s) (flag s)
-                   (S id) (accepted s ++ [id]) (ran s) (panicked s) (cb s) (clients s) (workers s) in
+                   (S id) (accepted s ++ [id]) (ran s) (panicked s) (cb s) (clients s) (workers s) (live s) in
     match busy s1 with
     | None => (spawn s1, Some id)
     | Some _ => (s1, Some id)
@@ -119,7 +128,7 @@ Definition close_busy (s : st) : st :=
   | Some c =>
       if memb c (chclosed s) then set_panicked s
       else mkst (queue s) (busy s) (c :: chclosed s) (nextch s) (closed s) (flag s) (nextop s)
-                (accepted s) (ran s) (panicked s) (cb s) (clients s) (workers s)
+                (accepted s) (ran s) (panicked s) (cb s) (clients s) (workers s) (live s)
   end.
 
 Definition is_nil {A} (l : list A) : bool := match l with [] => true | _ => false end.
@@ -154,7 +163,7 @@ Definition wstep (fx : bool) (s : st) (j : nat) (w : wpc) : option st :=
   | WFlagged =>                                          (* Store(false); onNegotiationNeeded() *)
       let s1 := setw (set_flag s false) j WDeferred in
       Some (match cb s1 with None => s1 | Some d => fst (try_enqueue s1 d) end)
-  | WDeferred => Some (setw (deferred fx s) j WExit)
+  | WDeferred => Some (retire (setw (deferred fx s) j WExit))
   | WExit => None
   end.
 
@@ -185,7 +194,7 @@ Definition run (fx : bool) (s : st) (sch : list tid) : st :=
   fold_left (step_or_skip fx) sch s.
 
 Definition init (cbk : option nat) (cls : list cpc) : st :=
-  mkst [] None [] 0 false false 0 [] [] false cbk cls [].
+  mkst [] None [] 0 false false 0 [] [] false cbk cls [] 0.
 
 (* threads start at the beginning of their call *)
 Definition initial_cpc (c : cpc) : Prop :=
